@@ -3,7 +3,10 @@ P21 = "Claripy.Props.C21."
 P22 = "Claripy.Props.C22."
 V = "Claripy.VSA."
 THEOREMS_C21 = [P21 + n for n in ("C21_add_sound", "C21_add_closed", "C21_sub_sound", "C21_sub_closed", "C21_neg_sound",
+                                  "C21_not_sound", "C21_zext_sound", "C21_ucmp_sound",
                                   "sdiv_unsound", "mul_unaligned_unsound")] + \
+               [V + n for n in ("ssplit_spec", "ssplit_wrap", "not_sound", "zext_sound", "ucmp_sound", "cmpWith_sound",
+                                "unsignedBounds_spec", "not_piece_mem", "widen_bits_mem")] + \
                [V + n for n in ("add_sound", "add_WF", "sub_sound", "sub_WF", "neg_sound", "neg_WF", "mem_new", "mem_top", "new_WF",
                                 "overflow_false", "cd_add", "cd_sub", "lastMember_facts", "wrappedCard_nat")]
 TESTS_C21 = [P21 + "test_add_example"]
